@@ -33,6 +33,7 @@ class Contract:
         self.model = kw.pop("model", None)       # assumed OPERATIONAL model of a library method: Python source executed symbolically
         self.value = kw.pop("value", None)       # the result IS this spec expression (functional contract): no fresh result symbol
         self.optional = kw.pop("optional", False)  # shape method present only as a capability has(obj, name)
+        self.local_tags = kw.pop("local_tags", {})  # local variable -> tag, applied when an untyped container is assigned to it
         self.field_tags = kw.pop("field_tags", {})  # field name -> tag, overriding the class table for this target only
         self.only_paths = kw.pop("only_paths", None)
         if kw:
